@@ -9,9 +9,19 @@ import (
 
 	mhubtypes "github.com/MinterTeam/mhub2/module/x/mhub2/types"
 
+	"verifharness/osvc"
 	"verifharness/runner"
 	"verifharness/world"
 )
+
+// the real oracle service (oracle/cmd/mhub-oracle) for OrcRelay actions
+func oracleService(w *world.World, emit func(world.J)) (func(int, world.Act), func(), error) {
+	s, err := osvc.New(w, emit)
+	if err != nil {
+		return nil, nil, err
+	}
+	return s.Relay, s.Close, nil
+}
 
 func mhubChain(c string) mhubtypes.ChainID { return mhubtypes.ChainID(c) }
 
@@ -68,7 +78,7 @@ func cmdRun(args []string) {
 	bw := bufio.NewWriterSize(of, 1<<20)
 	dead := 0
 	for _, s := range scripts {
-		w, err := runner.Run(s, world.DefaultCfg(), runner.Options{Digest: *digest, NoPost: *nopost}, bw)
+		w, err := runner.Run(s, world.DefaultCfg(), runner.Options{Digest: *digest, NoPost: *nopost, Service: oracleService}, bw)
 		if err != nil {
 			fmt.Fprintln(os.Stderr, "script", s.Id, err)
 			os.Exit(2)
